@@ -75,6 +75,11 @@ pub struct Workload {
     /// in-band channels are created (and DCEP OPEN is sent, as PeerConnection::create_data_channel
     /// does) as soon as DTLS is connected instead of after the association is established
     pub early_inband: bool,
+    /// (side, channel id, virtual ms after that side's channel opened): close_data_channel() calls
+    pub closes: Vec<(Side, u16, u64)>,
+    /// if set, only datagrams carrying a DATA chunk whose SSN lies in lo..=hi (wrapping) are fault
+    /// choice points (used to aim faults at the SSN wrap of a very long run)
+    pub fault_ssn_window: Option<(u16, u16)>,
 }
 
 pub fn payload(side: Side, chan: u16, idx: usize, len: usize) -> Vec<u8> {
@@ -82,9 +87,9 @@ pub fn payload(side: Side, chan: u16, idx: usize, len: usize) -> Vec<u8> {
     let hdr = [
         0xA0 | (side as u8),
         chan as u8,
+        (idx >> 16) as u8,
         (idx >> 8) as u8,
         idx as u8,
-        (len >> 16) as u8,
         (len >> 8) as u8,
         len as u8,
         0x5A,
@@ -404,6 +409,26 @@ async fn run_inner(w: &Workload, chooser: &mut Chooser, seed: u64) -> Obs {
         }));
     }
 
+    // channel closes requested by the workload
+    for (side, chan, at_ms) in w.closes.clone() {
+        let sctp = match side {
+            Side::A => a.sctp.clone().unwrap(),
+            Side::B => b.sctp.clone().unwrap(),
+        };
+        let logs = logs.clone();
+        sender_handles.push(tokio::spawn(async move {
+            for _ in 0..3000 {
+                let open = logs.lock().get(&(side, chan)).map(|c| c.open_stamp.is_some()).unwrap_or(false);
+                if open {
+                    break;
+                }
+                tokio::time::sleep(Duration::from_millis(10)).await;
+            }
+            tokio::time::sleep(Duration::from_millis(at_ms)).await;
+            let _ = sctp.close_data_channel(chan).await;
+        }));
+    }
+
     // the pump: the only place where datagrams move
     let mut held = Held::default();
     let mut buf = Vec::new();
@@ -470,7 +495,7 @@ async fn run_inner(w: &Workload, chooser: &mut Chooser, seed: u64) -> Obs {
             // inside a loss burst started by an earlier DropBurst: not a choice point
             burst_left[src as usize] -= 1;
             fault = Fault::Drop;
-        } else if both && is_app && fault_budget_open {
+        } else if both && is_app && fault_budget_open && in_ssn_window(w, &d, src, crypto.as_deref()) {
             let n = w.faults.len() + 1;
             let c = chooser.choose(n, || lab.clone());
             if c > 0 {
@@ -601,6 +626,29 @@ fn log_late(obs: &mut Obs, w: &Workload, d: &Dgram, a: &End, b: &End, t: u64) {
         }
     }
     obs.wire.push(WireEv { sent: false, t_ms: t, from: src, delivered: true, fault: Fault::None, dgram_len: d.data.len(), label: sim::label(d, crypto.as_deref()), sctp, sctp_raw_len: raw_len });
+}
+
+fn in_ssn_window(w: &Workload, d: &Dgram, src: Side, crypto: Option<&rustrtc::transports::dtls::SessionCrypto>) -> bool {
+    let Some((lo, hi)) = w.fault_ssn_window else {
+        return true;
+    };
+    let Some(c) = crypto else {
+        return false;
+    };
+    for (_r, p) in sim::sctp_of(&d.data, src, c) {
+        if let Some(p) = p {
+            if let Some(pk) = wire::parse_sctp(&p) {
+                for ch in &pk.chunks {
+                    if let wire::Chunk::Data { ssn, ppid, .. } = ch {
+                        if *ppid != 50 && ssn.wrapping_sub(lo) <= hi.wrapping_sub(lo) {
+                            return true;
+                        }
+                    }
+                }
+            }
+        }
+    }
+    false
 }
 
 fn all_delivered(
